@@ -256,6 +256,14 @@ impl World {
         if fx.created_datasets > 0 && !matches!(op, Op::AddDataset { .. }) {
             stats.probe("implicit_dataset_created");
         }
+        if let (Op::Annotate { target, .. }, Outcome::Ok { .. }) = (op, &expected) {
+            if let Sel::Multi(subs) | Sel::Composite(subs) | Sel::Directional(subs) = target {
+                let anns: Vec<usize> = subs.iter().filter_map(|s| if let Sel::Annotation { a, .. } = s { Some(a.idx) } else { None }).collect();
+                if anns.iter().enumerate().any(|(i, x)| anns[..i].contains(x)) {
+                    stats.probe("complex_selector_names_annotation_twice");
+                }
+            }
+        }
         if let Op::RemoveKey { .. } = op {
             if let Outcome::Ok { .. } = expected {
                 stats.probe("remove_key_ok");
